@@ -37,6 +37,9 @@ def table_variants():
                # chains that differ in an outer level only
                ("list-outer2", lambda: ["d2", "s"]), ("nested-outer2", lambda: S("s", parent=S("d2"))),
                ("three", lambda: ["a", "d", "s"]), ("three-outer2", lambda: S("s", parent=S("d", parent=S("b")))),
+               # three and four levels given as list / tuple / nested objects, differing in a middle level only
+               ("three-nested", lambda: S("s", parent=S("d", parent=S("a")))), ("three-middle2", lambda: ("a", "d2", "s")),
+               ("four", lambda: ["h", "a", "d", "s"]), ("four-middle2", lambda: ["h", "a2", "d", "s"]),
                # chains of different depth that share their outer levels
                ("outer-only", lambda: "d"), ("outer-two", lambda: ["a", "d"]), ("inner-two-of-three", lambda: S("s", parent=S("d")))]
     out = []
@@ -266,6 +269,7 @@ def h(o):
 
 SCHEMA_CHAIN = {"none": (), "str": ("s",), "list": ("d", "s"), "tuple": ("d", "s"), "Schema": ("s",), "nested": ("d", "s"), "str2": ("s2",),
                 "list-outer2": ("d2", "s"), "nested-outer2": ("d2", "s"), "three": ("a", "d", "s"), "three-outer2": ("b", "d", "s"),
+                "three-nested": ("a", "d", "s"), "three-middle2": ("a", "d2", "s"), "four": ("h", "a", "d", "s"), "four-middle2": ("h", "a2", "d", "s"),
                 "outer-only": ("d",), "outer-two": ("a", "d"), "inner-two-of-three": ("d", "s")}
 
 
